@@ -178,6 +178,43 @@ func (h *VsCons) Handle(cx *layer4.Connection, next layer4.Handler) error {
 	return next.Handle(cx)
 }
 
+// VsWrap replaces the connection, as the tls / proxy_protocol / tee handlers do: the next handler gets
+// cx.Wrap(conn) where conn reads THROUGH cx; with Xor != 0 conn also transforms every byte (as a decrypting
+// layer would), so that whoever reads afterwards can tell the new connection from the old one
+type VsWrap struct {
+	Xor   int `json:"xor"`
+	Depth int `json:"depth"`
+	Idx   int `json:"idx"`
+}
+
+func (*VsWrap) CaddyModule() caddy.ModuleInfo {
+	return caddy.ModuleInfo{ID: "layer4.handlers.verif_wrap", New: func() caddy.Module { return new(VsWrap) }}
+}
+
+type vsXorConn struct {
+	net.Conn
+	x byte
+}
+
+func (c *vsXorConn) Read(p []byte) (int, error) {
+	n, err := c.Conn.Read(p)
+	for i := 0; i < n; i++ {
+		p[i] ^= c.x
+	}
+	return n, err
+}
+
+func (h *VsWrap) Handle(cx *layer4.Connection, next layer4.Handler) error {
+	if t := vsTraceOf(cx); t != nil {
+		t.add(vsEvt{kind: "wrap", depth: h.Depth, idx: h.Idx, why: fmt.Sprint(h.Xor)})
+	}
+	var conn net.Conn = cx
+	if h.Xor != 0 {
+		conn = &vsXorConn{Conn: cx, x: byte(h.Xor)}
+	}
+	return next.Handle(cx.Wrap(conn))
+}
+
 type VsFail struct {
 	Depth int `json:"depth"`
 	Idx   int `json:"idx"`
@@ -206,7 +243,7 @@ type vsM struct {
 }
 
 type vsH struct {
-	kind int // 0 term; 1 cons; 2 fail; 4 sub
+	kind int // 0 term; 1 cons; 2 fail; 3 wrap (k = xor mask, 0: identity); 4 sub
 	k    int
 	sub  []vsR
 }
@@ -253,6 +290,8 @@ func vsRoutesCoq(rs []vsR) string {
 				hs[j] = fmt.Sprintf("hC %d", h.k)
 			case 2:
 				hs[j] = "HFail"
+			case 3:
+				hs[j] = "HWrap" // the model has the identity wrap only; transforming wraps are not sent to Coq
 			default:
 				hs[j] = "hS " + vsRoutesCoq(h.sub)
 			}
@@ -297,6 +336,8 @@ func vsRoutesJSON(rs []vsR, depth int) []any {
 				handle = append(handle, map[string]any{"handler": "verif_cons", "k": h.k, "depth": depth, "idx": i})
 			case 2:
 				handle = append(handle, map[string]any{"handler": "verif_fail", "depth": depth, "idx": i})
+			case 3:
+				handle = append(handle, map[string]any{"handler": "verif_wrap", "xor": h.k, "depth": depth, "idx": i})
 			default:
 				sub := vsRoutesJSON(h.sub, depth+1)
 				if sub == nil {
@@ -309,6 +350,20 @@ func vsRoutesJSON(rs []vsR, depth int) []any {
 		out = append(out, route)
 	}
 	return out
+}
+
+func vsHasXor(rs []vsR) bool {
+	for _, r := range rs {
+		for _, h := range r.hs {
+			if h.kind == 3 && h.k != 0 {
+				return true
+			}
+			if h.kind == 4 && vsHasXor(h.sub) {
+				return true
+			}
+		}
+	}
+	return false
 }
 
 // the property text's own evaluation of matchers: 0 yes 1 no 2 more 3 fail
@@ -472,6 +527,7 @@ func vsProvision(rs []vsR) (*vsInstance, error) {
 		caddy.RegisterModule(&VsTerm{})
 		caddy.RegisterModule(&VsCons{})
 		caddy.RegisterModule(&VsFail{})
+		caddy.RegisterModule(&VsWrap{})
 	})
 	js := vsRoutesJSON(rs, 0)
 	if js == nil {
@@ -585,6 +641,14 @@ func vsOracle(rs []vsR, stream []byte, t *vsTrace, decidable bool) map[string]st
 		}
 	}
 	consumed := 0
+	var mask byte // what every byte read from now on is XORed with (the wrapping handlers that ran so far)
+	want := func(a, b int) []byte {
+		x := append([]byte(nil), vsSlice(stream, a, b)...)
+		for i := range x {
+			x[i] ^= mask
+		}
+		return x
+	}
 	ended := ""
 	fbs := 0
 	lastRun := map[int]int{} // depth -> index of the last route that ran in the current invocation at that depth
@@ -635,12 +699,16 @@ func vsOracle(rs []vsR, stream []byte, t *vsTrace, decidable bool) map[string]st
 			}
 			lastRun[e.depth] = e.idx
 			path = append(path, e.idx)
-			if !bytes.Equal(e.data, vsSlice(stream, consumed, consumed+len(e.data))) {
-				add("C02:subroute:stream-not-intact", where+": bytes available to the route are not the client's unconsumed stream")
+			if !bytes.Equal(e.data, want(consumed, consumed+len(e.data))) {
+				add("C02:subroute:stream-not-intact", fmt.Sprintf("%s: bytes available to the route are %x, the connection as the earlier handlers left it continues with %x", where, e.data, want(consumed, consumed+len(e.data))))
 			}
+		case "wrap":
+			var x int
+			fmt.Sscan(e.why, &x)
+			mask ^= byte(x)
 		case "rd":
-			if !bytes.Equal(e.data, vsSlice(stream, consumed, consumed+len(e.data))) {
-				add("C02:subroute:stream-not-intact", where+": bytes read by the handler are not the next bytes of the client's stream")
+			if !bytes.Equal(e.data, want(consumed, consumed+len(e.data))) {
+				add("C02:subroute:stream-not-intact", fmt.Sprintf("%s: the handler read %x, the connection as the earlier handlers left it continues with %x", where, e.data, want(consumed, consumed+len(e.data))))
 			}
 			consumed += len(e.data)
 		case "fb":
@@ -660,7 +728,7 @@ func vsOracle(rs []vsR, stream []byte, t *vsTrace, decidable bool) map[string]st
 					add("C02:subroute:fallback-with-undecided-or-matching-route", fmt.Sprintf("%s: outer route %d is not decided as not matching on the available bytes", where, i))
 				}
 			}
-			if !bytes.Equal(e.data, vsSlice(stream, consumed, consumed+len(e.data))) {
+			if !bytes.Equal(e.data, want(consumed, consumed+len(e.data))) {
 				add("C02:subroute:stream-not-intact", where+": bytes handed to the fallback are not the client's unconsumed stream")
 			}
 		case "term":
@@ -716,7 +784,11 @@ func vsRandMatcher(g *vRng, depth int) vsM {
 		if g.Intn(4) == 0 {
 			y, n = "no", "yes"
 		}
-		return vsM{kind: 1, k: g.Intn(2), c: byte('a' + g.Intn(3)), y: y, n: n}
+		c := byte('a' + g.Intn(3))
+		if g.Intn(3) == 0 {
+			c ^= 0x20
+		}
+		return vsM{kind: 1, k: g.Intn(2), c: c, y: y, n: n}
 	default:
 		return vsM{kind: 2, sets: [][]vsM{{vsRandMatcher(g, depth+1)}}}
 	}
@@ -735,8 +807,10 @@ func vsRandRoutes(g *vRng, depth, n int) []vsR {
 		switch x := g.Intn(10); {
 		case x < 2:
 			rs[i].hs = []vsH{{kind: 0}}
-		case x < 4:
+		case x < 3:
 			rs[i].hs = []vsH{{kind: 1, k: g.Intn(2)}}
+		case x < 4:
+			rs[i].hs = []vsH{{kind: 3, k: []int{0, 0x20}[g.Intn(2)]}, {kind: 1, k: g.Intn(2)}}
 		case x < 5:
 		default:
 			if depth < 2 {
@@ -814,7 +888,12 @@ func TestVerifC02Subroute(t *testing.T) {
 		}
 		// non-trivial: not the first connection of the instance, and a route inside a subroute ran or several routes ran
 		nt := seqNo > 1 && (deep || nRun >= 2)
-		out.Case(fmt.Sprintf("RS %s %s %s %s", vsRoutesCoq(rs), vsChunksCoq(c.chunks), tr.coq(), cBool(tr.retErr)), "subroute-"+mode, nt, nil)
+		m := map[string]any{"t": "case", "coq": fmt.Sprintf("RS %s %s %s %s", vsRoutesCoq(rs), vsChunksCoq(c.chunks), tr.coq(), cBool(tr.retErr)), "cls": "subroute-" + mode, "nt": nt, "sample": nil}
+		if vsHasXor(rs) {
+			m["cls"] = "subroute-transform-" + mode
+			m["nocorr"] = true // model/Router.v has the identity wrap only
+		}
+		out.emit(m)
 	}
 	exercise := func(rs []vsR, cs []conn, decidable bool) {
 		in, err := vsProvision(rs)
@@ -869,6 +948,18 @@ func TestVerifC02Subroute(t *testing.T) {
 		{{hs: []vsH{{kind: 4, sub: []vsR{{hs: []vsH{{kind: 4, sub: inner}, {kind: 1, k: 1}}}, {mss: vsOne(vsFirst('c')), hs: term}}}}}, {mss: vsOne(vsT(0, "yes")), hs: term}},
 		// an empty subroute
 		{{hs: []vsH{{kind: 4, sub: []vsR{}}}}, {mss: vsOne(vsFirst('b')), hs: term}},
+		// a non-terminal inner route REPLACES the connection (transforming wrap) and reads one byte; what follows the
+		// subroute - the rest of the outer route, then the later outer routes - must go on with that connection
+		{{hs: []vsH{{kind: 4, sub: []vsR{{mss: vsOne(vsT(0, "yes")), hs: []vsH{{kind: 3, k: 0x20}, {kind: 1, k: 1}}}}}, {kind: 1, k: 1}}},
+			{mss: vsOne(vsFirst('C')), hs: term}, {mss: vsOne(vsFirst('A')), hs: term}, {mss: vsOne(vsFirst('B')), hs: term}},
+		// the same with the subroute as the only handler: the outer routes see the transformed stream
+		{{mss: vsOne(vsT(1, "yes")), hs: []vsH{{kind: 4, sub: []vsR{{mss: vsOne(vsT(1, "yes")), hs: []vsH{{kind: 3, k: 0x20}}}}}}},
+			{mss: vsOne(vsFirst('B')), hs: term}, {mss: vsOne(vsFirst('A')), hs: term}, {mss: vsOne(vsFirst('C')), hs: term}},
+		// identity wrap after a partial read inside the subroute (also compared with the model)
+		{{hs: []vsH{{kind: 4, sub: []vsR{{mss: vsOne(vsT(2, "yes")), hs: []vsH{{kind: 1, k: 1}, {kind: 3}}}}}, {kind: 1, k: 1}}}, {mss: vsOne(vsFirst('c')), hs: term}, {mss: vsOne(vsT(0, "yes")), hs: term}},
+		// nested twice with a transforming wrap in the innermost list
+		{{hs: []vsH{{kind: 4, sub: []vsR{{hs: []vsH{{kind: 4, sub: []vsR{{mss: vsOne(vsFirst('a')), hs: []vsH{{kind: 3, k: 0x20}}}}}}}, {mss: vsOne(vsFirst('A')), hs: []vsH{{kind: 1, k: 1}}}}}}},
+			{mss: vsOne(vsFirst('B')), hs: term}, {mss: vsOne(vsFirst('b')), hs: term}},
 	}
 	streams := []conn{mk("bbbbbbbbbbbb"), mk("bcabcabcabca", 1, 3), mk("abcabcabcabc", 2), mk("ccccbbbbaaaa", 1), mk("bacbacbacbac")}
 	for _, rs := range corpus {
